@@ -588,7 +588,9 @@ def check(run):
     with common.Lock():
         res = common.build_props("Props/C07.v", extra_targets=("Model/MarkingsRun.vo",))
         run.add_build(res, "make -C coq Props/C07.vo (coqc 8.16.1, full .vo) + Print Assumptions per theorem")
+        facts = C08.source_step(run, "Props/C07Src.v", G.CFG_FIELDS)
     cfg, obs = probe_variants(run)
+    C08.compare_text_and_probe(run, facts, cfg, G.CFG_FIELDS)
     run.coverage["variant_selected"] = {k: cfg[k] for k in G.CFG_FIELDS if k in cfg}
     # the witnesses are failing inputs whenever a defective variant is selected
     if cfg.get("inherit") == "ByPrefix" and "inherit" in obs:
@@ -640,7 +642,8 @@ def check(run):
         run.broken.append(Broken("correspondence", "Model/Markings.v (variant %s) vs stix2.markings" % json.dumps(run.coverage["variant_selected"]),
                                  {"first": dis[:5]}))
     run.coverage["trusted_base"] += [
-        "coq/Model/Markings.v is hand-written; tied to the source only by the correspondence run above",
+        "coq/Model/Markings.v is hand-written; tied to the source by the correspondence run above and, for the variant "
+        "sites and the control-flow skeleton of every function of stix2/markings, by translators/tr_markings.py (fail closed)",
         "harness/props/c07.py Ref / ref_get: the reference set semantics the oracle uses",
         "harness/impl/c07_impl.py: observation of states (object_marking_refs as a set, granular_markings as listed)",
     ]
